@@ -751,7 +751,7 @@ def generate_applied_gates(source_circuit: Circuit, desired_meas_result=None) ->
             unitary_circuits = new_unitary_circuits[:-1] + unitary_circuits
             qubits = new_qubits + qubits
             cmeasure_flags = new_cmeasure_flags + cmeasure_flags
-            precirc = [Circuit()]*len(qubits) + precirc
+            precirc = [Circuit()]*len(new_qubits) + precirc
 
     # No more MEASURE or CMEASURE gates are present, run final unitary circuit segment and set attributes
     final_circuit = precirc[0] + unitary_circuits[-1]
